@@ -104,6 +104,8 @@ impl Stats {
             &mut self.faults,
             if matches!(cfg.panic, Some((crate::work::PanicSite::Consumer, _))) {
                 "F3b_caller_panics_holding_a_chunk"
+            } else if matches!(cfg.panic, Some((crate::work::PanicSite::ElemDrop, _))) {
+                "F3c_element_destructor_panics"
             } else {
                 "F3_injected_panic"
             },
